@@ -33,7 +33,8 @@ func PropagateLookaheads(m *Model) error {
 		used.ClearAll(len(m.Params))
 		usedLA(m, nt.Value, func(param int, _ status.SourceNode) { used.Set(param) })
 		required := used.Slice(reuse)
-		state = append(state, nontermExt{pending: closure.Add(required), requiredFlags: required})
+		// Note: "required" shares its storage with "reuse", which is overwritten below.
+		state = append(state, nontermExt{pending: closure.Add(required), requiredFlags: append([]int(nil), required...)})
 	}
 	for i, nt := range m.Nonterms {
 		state[i].compat = entryPoints(nt.Value, func(ref *Expr) {
@@ -109,6 +110,13 @@ func PropagateLookaheads(m *Model) error {
 			}
 			enqueue(task{target, it.param})
 			ref.Args = append(ref.Args, Arg{Param: it.param, TakeFrom: it.param})
+		}
+	}
+
+	for _, inp := range m.Inputs {
+		if state[inp.Nonterm].numLA > 0 {
+			nt := m.Nonterms[inp.Nonterm]
+			s.Errorf(nt.Origin, "input nonterminal %v cannot accept lookahead flags", nt.Name)
 		}
 	}
 
